@@ -32,10 +32,11 @@ type Cfg struct {
 	KV        bool
 	Delta     bool
 	NWriters  int
+	NodeList  bool // the harness keeps some live nodes in a nitro.NodeList (as index callers do)
 }
 
 func (c Cfg) String() string {
-	return fmt.Sprintf("cfg{mm=%v kv=%v delta=%v writers=%d}", c.MM, c.KV, c.Delta, c.NWriters)
+	return fmt.Sprintf("cfg{mm=%v kv=%v delta=%v writers=%d nodelist=%v}", c.MM, c.KV, c.Delta, c.NWriters, c.NodeList)
 }
 
 // keyOf returns the comparator key of an item.
@@ -92,13 +93,17 @@ type World struct {
 	closed  bool
 	// Strict makes collection progress part of the judged property (C06/C07); otherwise a
 	// collection that does not settle makes the case inconclusive (skipped), not failed.
-	Strict     bool
-	memCheck   func()
-	inCallback bool  // running inside a callback of the code under test: failures are deferred
-	quiet      bool  // suppress per-op log lines (bulk actions log a summary)
-	failed     *bool // shared "a failure was seen in this process" flag
-	iters      []*nitro.Iterator
-	pinned     map[int]int // references reserved for concurrent readers (not closable by actions)
+	Strict      bool
+	memCheck    func()
+	freeRunning bool  // a script runs concurrently with a backup that releases its reference on its own schedule
+	inCallback  bool  // running inside a callback of the code under test: failures are deferred
+	quiet       bool  // suppress per-op log lines (bulk actions log a summary)
+	failed      *bool // shared "a failure was seen in this process" flag
+	iters       []*nitro.Iterator
+	pinned      map[int]int // references reserved for concurrent readers (not closable by actions)
+	// the application-side node list (nitro.NodeList) some callers keep over the nodes of live items
+	nl     *nitro.NodeList
+	inList map[string]bool
 	// known findings (signatures) for which generators exclude the triggering shape
 	known map[string]bool
 }
@@ -137,6 +142,10 @@ func NewWorld(t TB, cfg Cfg, st *ev.Stats) *World {
 		w.ws = append(w.ws, w.db.NewWriter())
 	}
 	w.baseMem = w.db.MemoryInUse()
+	if cfg.NodeList {
+		w.nl = nitro.NewNodeList(nil)
+		w.inList = map[string]bool{}
+	}
 	w.logf("new %v", cfg)
 	return w
 }
@@ -199,6 +208,10 @@ func (w *World) Put(wi int, item []byte) bool {
 	v := &version{key: key, bytes: string(item), born: w.currSn, node: n}
 	w.live[key] = v
 	w.phys = append(w.phys, v)
+	if w.nl != nil && len(w.inList) < 12 && w.opn%3 != 0 {
+		w.nl.Add(n)
+		w.inList[string(item)] = true
+	}
 	for _, o := range w.phys {
 		if o != v && o.key == key && o.dead != 0 {
 			w.flag("reinsert-after-delete")
@@ -223,6 +236,17 @@ func containsKey(cfg Cfg, content []string, key string) bool {
 		}
 	}
 	return false
+}
+
+// unlist takes the item out of the application's node list before it is deleted.
+func (w *World) unlist(v *version) {
+	if w.nl != nil && v != nil && w.inList[v.bytes] {
+		if n := w.nl.Remove([]byte(v.bytes)); n != v.node {
+			w.Failf("nodelist-remove", "NodeList.Remove(%q) returned node %p, the item lives in node %p", v.bytes, n, v.node)
+		}
+		delete(w.inList, v.bytes)
+		w.flag("deleted-node-was-in-application-list")
+	}
 }
 
 func (w *World) removeLive(v *version, how string) {
@@ -257,6 +281,7 @@ func (w *World) Delete(wi int, item []byte) bool {
 	w.op()
 	key := w.cfg.keyOf(item)
 	old := w.live[key]
+	w.unlist(old)
 	ok := w.ws[wi].Delete(item)
 	w.logf("delete(w%d,%s)=%v", wi, q(item), ok)
 	if ok != (old != nil) {
@@ -272,6 +297,7 @@ func (w *World) Delete2(wi int, item []byte) bool {
 	w.op()
 	key := w.cfg.keyOf(item)
 	old := w.live[key]
+	w.unlist(old)
 	n, ok := w.ws[wi].Delete2(item)
 	w.logf("delete2(w%d,%s)=%v", wi, q(item), ok)
 	if ok != (old != nil) {
@@ -293,6 +319,7 @@ func (w *World) DeleteNode(wi int, key string) {
 	if old == nil {
 		return
 	}
+	w.unlist(old)
 	ok := w.ws[wi].DeleteNode(old.node)
 	w.logf("deletenode(w%d,%q)=%v", wi, key, ok)
 	if !ok {
@@ -602,6 +629,14 @@ func (w *World) GC() {
 	w.op()
 	w.db.GC()
 	w.logf("gc()")
+	if w.freeRunning {
+		// a backup is releasing its reference concurrently: the model may be ahead of the instance
+		deadline := time.Now().Add(waitLimit())
+		for w.db.GetLastGCSn() != w.gcFrontier() && time.Now().Before(deadline) {
+			time.Sleep(100 * time.Microsecond)
+			w.db.GC()
+		}
+	}
 	if got, want := w.db.GetLastGCSn(), w.gcFrontier(); got != want && w.Strict {
 		w.Failf("gc-frontier", "after GC() GetLastGCSn()=%d, but snapshots 1..%d are all closed (model frontier)", got, want)
 	}
@@ -612,6 +647,32 @@ func (w *World) GC() {
 func (w *World) AwaitCollection() bool {
 	w.GC()
 	return true
+}
+
+// IdleCheck: with user-managed memory an idle instance (no iterator open, collection settled) holds no
+// unlinked-but-unfreed node: the allocator's live set is exactly one node and one item per physical
+// version plus the two sentinels (C17, second sentence).
+func (w *World) IdleCheck() {
+	if w.arena == nil || len(w.iters) > 0 {
+		return
+	}
+	w.settle()
+	want := 2*len(w.phys) + 2
+	deadline := time.Now().Add(waitLimit())
+	for {
+		live := w.arena.LiveCount()
+		if live == want {
+			return
+		}
+		if time.Now().After(deadline) {
+			sig := "unfreed-at-idle"
+			if live < want {
+				sig = "freed-while-live"
+			}
+			w.Failf(sig, "instance is idle (no iterator open, collection settled) but the allocator holds %d live blocks; %d physical versions account for %d", live, len(w.phys), want)
+		}
+		time.Sleep(100 * time.Microsecond)
+	}
 }
 
 // ---- teardown -----------------------------------------------------------------
